@@ -974,6 +974,14 @@ val prover_run :
   (bytes -> bytes) -> (nat list -> nat list -> bool) -> cell -> op list ->
   cell res option list
 
+type instr =
+| IRef of nat * nat
+| IPrune of nat
+
+val prog_run : nat list list -> nat list list -> instr list -> nat list list
+
+val prog_prunes : instr list -> nat list list
+
 val tree_at : nat -> node list -> nat -> cell option
 
 val flatten : cell -> nat -> node list
@@ -985,6 +993,8 @@ val path_of_sx : sx -> nat list
 val run_proof : sx -> sx
 
 val run_key : sx -> sx
+
+val instr_of_sx : sx -> instr
 
 val op_of_sx : sx -> op option
 
